@@ -425,6 +425,7 @@ func c07(c *core.Check) {
 	r11 := c.Rule("R11", "the two byte scanners (CSS tokenizer, selector parser) never read their buffer out of range: every index and slice of the buffer, every new value of the cursor (<= length) and every precondition \"cursor + k <= length\" that a callee needs is implied by the tests that dominate it, by the invariant 0 <= cursor <= length (itself proved at every store) and by the contracts of strings.Index, HasPrefix, DecodeRune and RuneLen; linear arithmetic over cursor versions, decided by elimination; sites resting on a regexp contract or on the saved position of the previous token are named", 250)
 	scannerBoundsRule(c, r11)
 	c07ArityScenarios(c)
+	c07StridedLoops(c)
 	r7 := c.Rule("R7", "svg.Parse cannot recurse forever on href references between definitions: inheritElement destroys the reference before following it", 1)
 	if ie := p.Lookup("svg.(*svgContext).inheritElement"); ie == nil {
 		r7.Anchor("svg.(*svgContext).inheritElement")
